@@ -56,9 +56,26 @@ func c18Kinds() []c18Kind {
 		{"e(e:a->b:x)@g1", E("g1", "e", "a", "b", "x")},
 		{"e(invalid)@g1", E("g1", "f", "a", "", "x")},
 		{"e(blank-gid)@g1", E("g1", "", "b", "a", "y")},
+		{"e(nul-in-to)@g1", E("g1", "h", "a", "b\x00a", "x")},
+		{"v(nul-in-gid)@g1", V("g1", "a\x00b", "P")},
 		{"v(a:P)@missing", V("nosuch", "a", "P")},
 		{"v(a:P)@schema", V("g1__schema__", "a", "P")},
 	}
+}
+
+// c18ModelInvalid is the property's own reading of "invalid element", independent of the code under
+// test (both the bulk path and the one-by-one path share gripql's Validate): blank gid or label, an
+// edge without both endpoints, or an identifier that cannot be represented faithfully (NUL byte).
+// A blank edge gid is not invalid on the server paths (a generated id is assigned, documented).
+func c18ModelInvalid(e *gripql.GraphElement) bool {
+	bad := func(s string) bool { return s == "" || strings.ContainsRune(s, 0) }
+	if v := e.Vertex; v != nil {
+		return bad(v.Gid) || bad(v.Label)
+	}
+	if ed := e.Edge; ed != nil {
+		return strings.ContainsRune(ed.Gid, 0) || bad(ed.Label) || bad(ed.From) || bad(ed.To)
+	}
+	return true
 }
 
 type c18Stream struct {
@@ -218,6 +235,9 @@ func C18(tier string) int {
 					invalid++
 				} else {
 					valid++
+					if c18ModelInvalid(e) {
+						run.Report(vf.Violation{Sig: "single|accepts-invalid-element|" + kinds[k].Name, Detail: fmt.Sprintf("adding %s on its own succeeds although the element is invalid (blank or unrepresentable identifier)", kinds[k].Name), Replay: rep})
+					}
 				}
 			}
 			// (a) bulk
@@ -492,7 +512,7 @@ func C18(tier string) int {
 	run.Coverage["evaluations"] = len(streams) + sbRuns
 	run.Coverage["distinct_nontrivial"] = len(states)
 	run.Coverage["exhaustive"] = true
-	run.Coverage["rule"] = "every element stream up to the length bound over 10 element kinds (valid/invalid vertices and edges, relabel, blank edge id, second graph, missing graph, schema graph); StreamBatch: every sequence up to the bound over 5 element kinds x batch sizes 1,2,3 plus uniform streams around 50/100/200; states = distinct final observations"
+	run.Coverage["rule"] = "every element stream up to the length bound over 12 element kinds (valid/invalid vertices and edges incl. NUL bytes in an id or endpoint, relabel, blank edge id, second graph, missing graph, schema graph); StreamBatch: every sequence up to the bound over 5 element kinds x batch sizes 1,2,3 plus uniform streams around 50/100/200; states = distinct final observations"
 	if len(samples) == 0 {
 		samples = []string{"BulkAdd[v(a:P)@g1, e(e:a->b:x)@g1]"}
 	}
